@@ -8,4 +8,4 @@ CONSTANTS
 CONSTRAINT Record
 POSTCONDITION Accepted
 CHECK_DEADLOCK FALSE
-INVARIANTS IndexCoherent SortCoherent KeyCoherent NoCollision OccupiedIsLive NoStaleValues StreamIds
+INVARIANTS ReadBack IndexCoherent SortCoherent KeyCoherent NoCollision OccupiedIsLive NoStaleValues StreamIds
